@@ -56,6 +56,10 @@ func respellDirective(g *G, d string) string {
 			arg = `"` + inner[:i] + `\` + inner[i:] + `"`
 		}
 	case isDigits(arg) || (arg != "" && !strings.ContainsAny(arg, " ,\t\"\\")):
+		if isDigits(arg) && g.chance(0.12) {
+			// leading zeros do not change a number, however many there are (1*DIGIT)
+			arg = strings.Repeat("0", pick(g, 1, 3, 18, 20, 25)) + arg
+		}
 		if g.chance(0.4) {
 			arg = `"` + arg + `"`
 			if g.chance(0.3) {
@@ -338,7 +342,10 @@ func (g *G) genFaithful(id string) *History {
 		{"Close", "17:30"}, {"Keep-Alive", "timeout=5"}, {"Upgrade", "h2c"}, {"Proxy-Authenticate", "Basic"}, {"Te", "trailers"}, {"TE", "gzip"},
 		{"Connection", "X-Hop, keep-alive"}, {"X-Hop", "hop"}, {"Connection", "X-Hop2"}, {"X-Hop2", "hop2"}, {"Proxy-Connection", "keep-alive"},
 		// connection options are tokens: a stray quote in one member hides nothing after it
-		{"Connection", `x", X-Hop3`}, {"X-Hop3", "hop3"}, {"Etag", `"f1"`},
+		{"Connection", `x", X-Hop3`}, {"X-Hop3", "hop3"},
+		// a Connection option may be the name of ANY field, also of one a cache knows well: what the sender names is
+		// connection-specific and is neither stored nor replayed
+		{"Connection", "keep-alive, ETag"}, {"Connection", "Last-Modified"}, {"Last-Modified", "Fri, 31 Dec 1999 00:00:00 GMT"}, {"Connection", "X-Long, Content-Type"}, {"Etag", `"f1"`},
 		{"Age", "7"}, {"X-From-Cache", "1"}, {"X-Httpcache-Status", "HIT"}, {"Warning", `110 - "stale"`}, {"Vary", "X-A"}} {
 		if g.chance(0.3) {
 			hd = append(hd, p)
@@ -825,6 +832,11 @@ func (g *G) genSIE(id string) *History {
 				eh = append(eh, [2]string{"Cache-Control", "stale-if-error=1000"})
 			}
 			rp = Reply{Status: pick(g, 500, 502, 503, 504), Hdr: eh, Body: "err", BodyFail: -1, DelayNs: delay}
+			if g.chance(0.2) {
+				// the failure reply's body stalls for an hour: nobody needs it (the stored response or the reply's own
+				// status decide), and nobody should wait for it
+				rp.BodyStallNs = 3600 * sec
+			}
 		case 4:
 			rp = Reply{Status: pick(g, 501, 505, 404, 400, 429, 599), Hdr: Hdr{{"Date", dateAt(at+delay, 0)}}, Body: "err", BodyFail: -1, DelayNs: delay}
 		default:
